@@ -739,6 +739,78 @@ def _r6_shape(L, repo):
                   ["self.trx_list.find_trx(remote_addr, base_port)"], parent_def, line=c.lineno)
 
 
+def r9_served(L, repo):
+    """R9 (every transceiver listens on its control / data ports): the main loop waits on the CTRL and DATA socket of EVERY
+    registered transceiver.  The socket set handed to select() is either built in run() by walking the registration
+    list, or kept in an attribute - then every function that registers a transceiver (calls trx_list.add_trx) must add
+    that transceiver's two sockets to it; and whatever select() reports is dispatched by walking the full list."""
+    FF = rel("fake_trx")
+    ci, run_ = repo.need_method("fake_trx", "Application", "run")
+    fn = "Application.run"
+    L.fn(FF, fn)
+    sel = [c for c in calls_in(run_) if canon(c.func) in ("select.select", "select")]
+    L.require("C12.R9", FF, fn, "one select() call in the main loop", 1, len(sel))
+    if len(sel) != 1 or not sel[0].args:
+        return
+    S = sel[0].args[0]
+
+    def socks_added(scope, target_txt):
+        """{(variable, 'ctrl'|'data')} of sockets added to the set `target_txt` inside `scope`"""
+        out = set()
+        for n in ast.walk(scope):
+            vals = []
+            if isinstance(n, ast.Call) and isinstance(n.func, ast.Attribute) and canon(n.func.value) == target_txt \
+                    and n.func.attr in ("append", "extend", "add", "insert"):
+                for a in n.args:
+                    vals += list(a.elts) if isinstance(a, (ast.List, ast.Tuple, ast.Set)) else [a]
+            elif isinstance(n, ast.AugAssign) and canon(n.target) == target_txt and isinstance(n.op, ast.Add):
+                vals += list(n.value.elts) if isinstance(n.value, (ast.List, ast.Tuple)) else [n.value]
+            for v in vals:
+                t = canon(v)
+                for kind, suffix in (("ctrl", ".ctrl_if.sock"), ("data", ".data_if.sock")):
+                    if t.endswith(suffix):
+                        out.add((t[:-len(suffix)], kind))
+        return out
+    if isinstance(S, ast.Name):
+        loops = [n for n in ast.walk(run_) if isinstance(n, ast.For) and canon(n.iter) == "self.trx_list.trx_list" and isinstance(n.target, ast.Name)]
+        got = set()
+        for lp in loops:
+            got |= {k for v, k in socks_added(lp, S.id) if v == lp.target.id}
+        if not got:
+            raise AnalysisError("Application.run: how the socket set `%s` of select() is built is not recognised" % S.id)
+        L.ob("C12.R9", FF, fn, "the socket set of select() holds the CTRL and the DATA socket of every registered transceiver",
+             ["ctrl", "data"], sorted(got), got == {"ctrl", "data"}, sel[0].lineno)
+    elif isinstance(S, ast.Attribute) and isinstance(S.value, ast.Name) and S.value.id == "self":
+        txt = canon(S)
+        n_reg = 0
+        for mname, m in sorted(ci.methods.items()):
+            for c in calls_in(m):
+                if canon(c.func) == "self.trx_list.add_trx" and c.args:
+                    n_reg += 1
+                    v = canon(c.args[0])
+                    got = {k for v2, k in socks_added(m, txt) if v2 == v}
+                    L.ob("C12.R9", FF, "Application." + mname, "`%s` registers a transceiver: its CTRL and DATA sockets join the set select() waits on (%s)" % (canon(c)[:50], txt),
+                         ["ctrl", "data"], sorted(got), got == {"ctrl", "data"}, c.lineno)
+        L.floor("C12.R9", "registration sites", n_reg, 1)
+    else:
+        raise AnalysisError("Application.run: socket set of select() `%s` is neither a local list nor an attribute" % canon(S))
+    # dispatch
+    loops = [n for n in ast.walk(run_) if isinstance(n, ast.For) and canon(n.iter) == "self.trx_list.trx_list" and isinstance(n.target, ast.Name)]
+    served = set()
+    for lp in loops:
+        v = lp.target.id
+        for c in calls_in(lp):
+            t = canon(c.func)
+            if t == "%s.recv_data_msg" % v:
+                served.add("data")
+            if t == "%s.ctrl_if.handle_rx" % v:
+                served.add("ctrl")
+    if not served:
+        raise AnalysisError("Application.run: the dispatch of ready sockets is not recognised")
+    L.ob("C12.R9", FF, fn, "ready sockets are dispatched by walking the full registration list (DATA -> recv_data_msg, CTRL -> handle_rx)",
+         ["ctrl", "data"], sorted(served), served == {"ctrl", "data"}, run_.lineno)
+
+
 def r7_trx_def(L, repo):
     """R7 (port plan of transceivers from --trx definitions): the child index that shifts the control/data ports by
     2 per child is the whole decimal number after '/', the port the whole number after ':' (documented form
@@ -793,3 +865,6 @@ def run(L, tier):
         L.structural("C12.R5 linear normal forms of the port expressions in Transceiver.__init__", r5_ports, L, repo, True)
     L.stage(r6_wiring, L, repo)
     L.stage(r7_trx_def, L, repo)
+    L.stage(r9_served, L, repo)
+    from pyutil import instance_state
+    L.stage(instance_state, L, repo, "C12.R8", "transceiver", "Transceiver", "each transceiver manages its own children / queue")
